@@ -1039,5 +1039,59 @@ func extractConvertStatus(repo string) (string, error) {
 	if len(rows) == 0 {
 		rows = append(rows, ".unrecognised "+c14q("openapi3filter/validation_error_encoder.go: no status found"))
 	}
+	// dispatch of ConvertErrors: every if / else-if of its body in source order — the condition (the type assertion
+	// of its init statement when it has one) and what the branch does: the convert* function it calls, or its return
+	if fd := p.funcs["ConvertErrors"]; fd == nil || fd.Body == nil {
+		rows = append(rows, ".unrecognised "+c14q("openapi3filter: ConvertErrors not found"))
+	} else {
+		ast.Inspect(fd.Body, func(n ast.Node) bool {
+			ifs, ok := n.(*ast.IfStmt)
+			if !ok {
+				return true
+			}
+			cond := types.ExprString(ifs.Cond)
+			if as, ok := ifs.Init.(*ast.AssignStmt); ok && len(as.Rhs) == 1 {
+				cond = types.ExprString(as.Rhs[0])
+			}
+			what := ""
+			ast.Inspect(ifs.Body, func(m ast.Node) bool {
+				if what != "" {
+					return false
+				}
+				switch x := m.(type) {
+				case *ast.CallExpr:
+					if id, ok := x.Fun.(*ast.Ident); ok && strings.HasPrefix(id.Name, "convert") {
+						what = id.Name
+					}
+				case *ast.ReturnStmt:
+					if len(x.Results) == 1 {
+						if _, isCall := x.Results[0].(*ast.CallExpr); !isCall {
+							what = "return " + types.ExprString(x.Results[0])
+						}
+					}
+				}
+				return true
+			})
+			if what == "" {
+				rows = append(rows, ".unrecognised "+c14q(p.site(ifs.Pos())))
+			} else {
+				rows = append(rows, fmt.Sprintf(".dispatch %s %s", c14q(cond), c14q(what)))
+			}
+			return true
+		})
+	}
+	// ValidationErrorEncoder.Encode: its body must be one call
+	for _, m := range p.methods["ValidationErrorEncoder"] {
+		if m.Name.Name != "Encode" || m.Body == nil {
+			continue
+		}
+		if len(m.Body.List) == 1 {
+			if es, ok := m.Body.List[0].(*ast.ExprStmt); ok {
+				rows = append(rows, ".encode "+c14q(types.ExprString(es.X)))
+				continue
+			}
+		}
+		rows = append(rows, ".unrecognised "+c14q(p.site(m.Pos())))
+	}
 	return c14Emit("ConvertStatus", "KRow", "KinModel.MiddlewareSrc", rows), nil
 }
